@@ -233,15 +233,16 @@ func blockNest(header, innermost string) func(d int) string {
 
 // nestFamily lists the constructs. The quick tier stops the ladders of the
 // run-time recursion members at 10^5 (one 10^7 member shows what a short
-// program can do to the Go stack); thorough adds 10^6 and 10^7 throughout.
+// program can do to the Go stack); thorough adds 10^6 (the 10^7 member stays
+// the only one of its size, so that one root cause has one key).
 func nestFamily(thorough bool) []nestCons {
 	big := []int{1, 2, 3, 10, 100, 1000, 10000, 100000}
 	bigTop := append(append([]int{}, big...), 10000000)
 	rec := []int{1, 10, 1000, 100000}
 	deep := []int{100000}
 	if thorough {
-		big = append(big, 1000000, 10000000)
-		bigTop = big
+		big = append(big, 1000000)
+		bigTop = append(append([]int{}, big...), 10000000)
 		rec = append(rec, 1000000)
 		deep = append(deep, 1000000)
 	}
